@@ -14,7 +14,7 @@ From Coq Require Import List ZArith NArith Bool.
 Import ListNotations.
 From PyccoloV Require Import gen.PyAst gen.Events model.Tree model.Erase model.RwFrag proofs.EraseSound proofs.RwFragProofs.
 From PyccoloV Require Import model.FragSem proofs.FragSemProofs.
-From PyccoloV Require model.FragFun proofs.FragFunProofs.
+From PyccoloV Require model.FragFun proofs.FragFunProofs model.FragProg proofs.FragProgProofs.
 
 Theorem C01_erase_sound :
   forall (D : Type) (dnone : D) (sem : N -> list scalar -> list (list D) -> D) (eqvl : list D -> list D -> Prop),
@@ -140,4 +140,39 @@ Example C01_fun_semantics_nonvacuous :
   FragFun.f_exc (run 5%nat) = None /\ FragFun.f_env (run 5%nat) 103%N = Some (VInt 6) /\ FragFun.f_env (run 5%nat) 102%N = None /\
   FragFun.f_exc (run 3%nat) = Some FragFun.FFuel /\
   FragFun.f_exc (FragFun.frun Py.binop Py.cmpop Py.unop Py.truth Py.cval Py.is_and {| sub := fun _ => false |} (fun _ _ => true) 3%nat ex_rec (fun _ => None) VNone) = Some FragFun.FFuel.
+Proof. vm_compute. repeat split; reflexivity. Qed.
+
+(* ... and with LOOPS AND FUNCTIONS TOGETHER (model/FragProg.v: while / else / break / continue in function bodies and at module level, return from
+   inside loops, calls from loops, recursion; fuel per loop execution and per call depth; one policy over test, body and function guards) - it subsumes
+   C01_frag_semantics' statement layer and C01_fun_semantics.  K-prog ties it to the real rewriter (whole-tree equality), CPython and the runtime. *)
+Theorem C01_prog_semantics : forall binop cmpop unop truth cval is_and fuel c ge pol c0 pol0 m d r sv sv',
+  forallb FragProgProofs.psrc_t m = true ->
+  FragProg.p_exc (FragProg.prun binop cmpop unop truth cval is_and c pol fuel d (FragProg.pinstr_module c ge m) r sv) =
+  FragProg.p_exc (FragProg.prun binop cmpop unop truth cval is_and c0 pol0 fuel d m r sv') /\
+  FragProg.p_env (FragProg.prun binop cmpop unop truth cval is_and c pol fuel d (FragProg.pinstr_module c ge m) r sv) =
+  FragProg.p_env (FragProg.prun binop cmpop unop truth cval is_and c0 pol0 fuel d m r sv').
+Proof. exact FragProgProofs.prog_plain. Qed.
+Print Assumptions C01_prog_semantics.
+
+(* non-vacuity: `def g(p): i = 0; while True: i = i + 1; if i > p: break` / `return i`, then `a = 0; while a < 2: a = g(a)`: a module-level loop
+   calling a function that loops and breaks; every event subscribed; ends with a = 2 (and g's loop needs 3 iterations of fuel: with fuel 2 both
+   the source and the instrumented program run out of fuel) *)
+Definition ex_prog : list FragProg.pstmt :=
+  [FragProg.PDef 1 100 [101]
+     [FragProg.PAssign 4 [102] (FragFun.RExp (XConst 7 (SInt 0%Z)));
+      FragProg.PWhile 8 (XConst 9 (SBool true))
+        [FragProg.PAssign 10 [102] (FragFun.RExp (XBin 13 (XName 14 102) kAdd (XConst 17 (SInt 1%Z))));
+         FragProg.PIf 18 (XCmp 19 (XName 20 102) [kGt] [XName 23 101]) [FragProg.PBreak 25] []] [];
+      FragProg.PReturn 26 (Some (FragFun.RExp (XName 27 102)))];
+   FragProg.PAssign 29 [103] (FragFun.RExp (XConst 32 (SInt 0%Z)));
+   FragProg.PWhile 33 (XCmp 34 (XName 35 103) [kLt] [XConst 38 (SInt 2%Z)])
+     [FragProg.PAssign 39 [103] (FragFun.RCall 42 false false false (XName 43 100) [XName 45 103])] []]%N.
+Example C01_prog_semantics_nonvacuous :
+  forallb FragProgProofs.psrc_t ex_prog = true /\
+  let run fuel := FragProg.prun Py.binop Py.cmpop Py.unop Py.truth Py.cval Py.is_and {| sub := fun _ => true |} (fun _ _ => true) fuel 3
+                    (FragProg.pinstr_module {| sub := fun _ => true |} true ex_prog) (fun _ => None) VNone in
+  FragProg.p_exc (run 5%nat) = None /\ FragProg.p_env (run 5%nat) 103%N = Some (VInt 2) /\
+  FragProg.p_exc (run 2%nat) = Some (FragProg.PO FragFun.FFuel) /\
+  FragProg.p_exc (FragProg.prun Py.binop Py.cmpop Py.unop Py.truth Py.cval Py.is_and {| sub := fun _ => false |} (fun _ _ => true) 2 3 ex_prog (fun _ => None) VNone)
+  = Some (FragProg.PO FragFun.FFuel).
 Proof. vm_compute. repeat split; reflexivity. Qed.
